@@ -4,11 +4,16 @@ package server
 
 // C09: references and rename hit exactly the symbol's occurrences, in the right files.
 //
-// A virtual workspace of 2..4 journals joined by include directives is produced from a derivation
-// that records every occurrence (file, line, columns, declaration or use) of the account, commodity
-// or payee names, which are drawn from a pool of three names per kind. The server is driven through
-// Initialize / Initialized / DidOpen / (DidChange) / background tasks / References / Rename and
-// the answers are compared with the derivation's occurrence set.
+// A virtual workspace of 1..4 journals joined by include directives is produced from a derivation
+// that records every occurrence (file, line, columns, declaration or use) of account, commodity and
+// payee names. Every transaction and every declaration carries one name index; the account, the
+// commodity and the payee of that entry are the pool names of that index, so that one workspace
+// exercises the three kinds of symbol at once (which occurrences coincide is the same partition for
+// each kind). The server is driven through Initialize / Initialized / DidOpen / (DidChange) /
+// background tasks; then, for EVERY occurrence in the requesting file (cursor on any of its
+// characters), References (without and with declarations) and Rename are compared with the
+// derivation's occurrence set, the rename edits are applied with a reference applier, and every file
+// is re-parsed and compared with the derivation with the name substituted.
 
 import (
 	"context"
@@ -22,8 +27,10 @@ import (
 )
 
 func init() {
+	zzverif.Register("VerifC09One", VerifC09One)
 	zzverif.Register("VerifC09Two", VerifC09Two)
 	zzverif.Register("VerifC09Three", VerifC09Three)
+	zzverif.Register("VerifC09TwoLong", VerifC09TwoLong)
 	zzverif.Register("VerifC09ThreeLong", VerifC09ThreeLong)
 	zzverif.Register("VerifC09FourLong", VerifC09FourLong)
 }
@@ -39,31 +46,53 @@ var c09Pool = [][]string{
 	{"CCA", "CCB", "CCC"},
 	{"Shopa", "Shopb", "Shopc"},
 }
-var c09Fixed = []string{"ac:fix", "USD", "Fixed"}
 var c09New = []string{"zz:new", "ZZZ", "Zed"}
+var c09KindName = []string{"account", "commodity", "payee"}
 
-// known-finding classes
+// Known-finding classes. Every predicate is a predicate of the configuration (mode, requesting file, which file is
+// open with unsaved text and how that text arrived, cursor on a declaration, symbol has a declaration), never of the
+// server's answer. A class does not skip a comparison: it replaces the ideal expectation by exactly what its cause
+// produces, so everything else stays checked.
 const (
-	c09ClsRelabel  = "workspace-primary-relabelled"       // workspace mode, request from an included file: the root's tree is filed under the requesting file's path
-	c09ClsSubtree  = "no-workspace-sees-own-subtree"      // without a workspace root a request from an included file sees only that file and what it includes
-	c09ClsStale    = "no-workspace-stale-open-file"       // without a workspace root, unsaved edits of other open files are not seen (included files are read from disk)
-	c09ClsDirNoEnd = "directive-name-no-end"              // declarations carry no end position: 4294967295:4294967295
-	c09ClsFromDecl = "references-from-declaration-none"   // cursor on the name in an account/commodity directive: no target found
-	c09ClsWsStale  = "workspace-open-included-not-synced" // workspace mode: (reserved)
+	// workspace mode, request from a file that is not the workspace root: allJournalsWithPaths files the ROOT's syntax
+	// tree under the requesting file's path (the requesting file's own tree is lost, the root has no entry).
+	c09ClsRelabel = "c09-workspace-primary-relabelled"
+	// no workspace root, request from an included file: only that file and what it includes are searched.
+	c09ClsSubtree = "c09-no-workspace-sees-own-subtree"
+	// no workspace root: another open file's unsaved text is not seen (included files are read from disk).
+	c09ClsStale = "c09-no-workspace-stale-open-file"
+	// workspace mode: unsaved text that arrived with didOpen (not didChange) never reaches the workspace tree.
+	c09ClsOpenSync = "c09-workspace-didopen-not-synced"
+	// the name in an account / commodity directive carries no end position: 4294967295:4294967295.
+	c09ClsDirNoEnd = "c09-directive-name-no-end"
+	// cursor on the name in an account / commodity directive: no symbol is found, no references, no rename.
+	c09ClsFromDecl = "c09-references-from-declaration-none"
 )
 
+type c09Cfg struct {
+	n     int
+	rich  bool // every file: optional declaration with a free name; optional second transactions (tx2)
+	tx2   int  // rich only: 1 = a second transaction in at most one file, 2 = in any subset of the files
+	pool  int  // names per kind (2 or 3)
+	edits int  // 0: unsaved text in {none, f1} (f0 when n == 1); 1: in {none, any file}
+	via   bool // the unsaved text may also arrive with didOpen (no didChange)
+}
+
 type c09Occ struct {
-	file, line, s, e int
-	decl, added      bool
-	name             int // pool index
-	tx               int // index of the transaction in its file (declarations: index of the directive)
+	kind, file, line, s, e int
+	decl, added            bool
+	name                   int // pool index
+	idx                    int // index of the transaction (declarations: of the directive) in its file
 }
 
 type c09Tx struct {
-	date                  string
-	payee, acct, comm     string
-	amount                string
-	line                  int
+	mon, day                  int
+	payee, acct, comm, amount string
+}
+
+type c09Dir struct {
+	kind int
+	name string
 }
 
 type c09File struct {
@@ -73,20 +102,20 @@ type c09File struct {
 	includes  []int
 	lineOff   []int // byte offset of each line start in cur
 	lineLen   []int
-	occs      []c09Occ // occurrences of the chosen kind in cur
+	occs      []c09Occ // occurrences in cur
 	txs       []c09Tx
-	ndirs     int
-	ndiskTx   int
+	dirs      []c09Dir
 }
 
 type c09WS struct {
-	kind  int
-	n     int
-	ws    bool // Initialize with RootURI
-	req   int
-	edit  int // index of the file that is open with an unsaved edit, -1 none
-	files []*c09File
-	maxNm int // canonical naming: largest pool index used so far
+	n       int
+	ws      bool // Initialize with RootURI
+	req     int
+	edit    int  // index of the file that is open with unsaved text, -1 none
+	viaOpen bool // the unsaved text arrived with didOpen
+	pool    int
+	files   []*c09File
+	maxNm   int // canonical naming: largest pool index used so far
 }
 
 func (w *c09WS) path(i int) string { return zzverif.Root() + "/" + w.files[i].name }
@@ -94,13 +123,16 @@ func (w *c09WS) uri(i int) protocol.DocumentURI {
 	return protocol.DocumentURI("file://" + w.path(i))
 }
 
-// pick draws a pool index in canonical order (the first name used is pool[0], a new name is always the next unused one).
+// pick draws a pool index in canonical order (a new name is always the next unused one).
 func (w *c09WS) pick(id string) int {
 	k := w.maxNm + 2
-	if k > 3 {
-		k = 3
+	if k > w.pool {
+		k = w.pool
 	}
-	v := zzverif.Choice(id, k)
+	v := 0
+	if k > 1 {
+		v = zzverif.Choice(id, k)
+	}
 	if v > w.maxNm {
 		w.maxNm = v
 	}
@@ -124,55 +156,44 @@ func (b *c09FB) ln(s string) {
 	b.line++
 }
 
-func (b *c09FB) occ(col int, name int, decl, added bool, tx int) {
-	b.f.occs = append(b.f.occs, c09Occ{file: b.fi, line: b.line, s: col, e: col + len(c09Pool[b.w.kind][name]), decl: decl, added: added, name: name, tx: tx})
+func (b *c09FB) occ(kind, col, name int, decl, added bool, idx int) {
+	b.f.occs = append(b.f.occs, c09Occ{kind: kind, file: b.fi, line: b.line, s: col, e: col + len(c09Pool[kind][name]), decl: decl, added: added, name: name, idx: idx})
 }
 
-// name: text of a leaf of kind k; leaves of the chosen kind come from the pool (index nm), others are fixed.
-func (b *c09FB) name(k, nm int) string {
-	if k == b.w.kind {
-		return c09Pool[k][nm]
-	}
-	return c09Fixed[k]
+// decl: an account and a commodity declaration of name index nm.
+func (b *c09FB) decl(nm int) {
+	b.occ(c09Acct, len("account "), nm, true, false, len(b.f.dirs))
+	b.f.dirs = append(b.f.dirs, c09Dir{c09Acct, c09Pool[c09Acct][nm]})
+	b.ln("account " + c09Pool[c09Acct][nm])
+	b.occ(c09Comm, len("commodity "), nm, true, false, len(b.f.dirs))
+	b.f.dirs = append(b.f.dirs, c09Dir{c09Comm, c09Pool[c09Comm][nm]})
+	b.ln("commodity " + c09Pool[c09Comm][nm])
 }
 
-func (b *c09FB) decl(k, nm int) {
-	kw := "account "
-	if k == c09Comm {
-		kw = "commodity "
-	}
-	if k == b.w.kind {
-		b.occ(len(kw), nm, true, false, b.f.ndirs)
-	}
-	b.f.ndirs++
-	b.ln(kw + b.name(k, nm))
-}
-
-func (b *c09FB) tx(date string, nm int, amount string, added bool) {
-	k := b.w.kind
-	t := c09Tx{date: date, payee: b.name(c09Payee, nm), acct: b.name(c09Acct, nm), comm: b.name(c09Comm, nm), amount: amount, line: b.line}
+func (b *c09FB) tx(mon, day int, nm int, amount string, added bool) {
+	date := "2024-0" + zzverif.Itoa(mon) + "-0" + zzverif.Itoa(day)
+	t := c09Tx{mon: mon, day: day, payee: c09Pool[c09Payee][nm], acct: c09Pool[c09Acct][nm], comm: c09Pool[c09Comm][nm], amount: amount}
 	ti := len(b.f.txs)
-	if k == c09Payee {
-		b.occ(len(date)+1, nm, false, added, ti)
-	}
+	b.occ(c09Payee, len(date)+1, nm, false, added, ti)
 	b.ln(date + " " + t.payee)
-	if k == c09Acct {
-		b.occ(4, nm, false, added, ti)
-	}
-	if k == c09Comm {
-		b.occ(4+len(t.acct)+2+len(amount)+1, nm, false, added, ti)
-	}
+	b.occ(c09Acct, 4, nm, false, added, ti)
+	b.occ(c09Comm, 4+len(t.acct)+2+len(amount)+1, nm, false, added, ti)
 	b.ln("    " + t.acct + "  " + amount + " " + t.comm)
 	b.ln("    eq:open")
 	b.f.txs = append(b.f.txs, t)
 }
 
 // c09Build: the workspace of the derivation.
-//   n files f0..f(n-1); topo 0 chain (fi includes fi+1), 1 star (f0 includes all), 2 tree (f0: f1,f2; f1: f3)
-//   full: every file may carry a second transaction and every declaration is free; otherwise declarations follow declPat
-func c09Build(n int, full bool) *c09WS {
-	w := &c09WS{n: n, edit: -1}
-	w.kind = zzverif.Choice("kind", 3)
+//
+//	n files f0..f(n-1); topo 0 chain (fi includes fi+1), 1 star (f0 includes all), 2 tree (f0: f1,f2; f1: f3)
+//	rich: every declaration is free and files may carry a second transaction; otherwise declarations follow declPat
+func c09Build(c c09Cfg) *c09WS {
+	n := c.n
+	w := &c09WS{n: n, edit: -1, pool: c.pool, maxNm: -1}
+	w.ws = zzverif.Choice("workspace", 2) == 1
+	if n > 1 {
+		w.req = zzverif.Choice("req", n)
+	}
 	topo := 0
 	if n > 2 {
 		nt := 2
@@ -181,17 +202,33 @@ func c09Build(n int, full bool) *c09WS {
 		}
 		topo = zzverif.Choice("topo", nt)
 	}
-	w.ws = zzverif.Choice("workspace", 2) == 1
-	w.req = zzverif.Choice("req", n)
 	if zzverif.Choice("edit", 2) == 1 {
-		w.edit = 1
-		if full && n > 2 {
-			w.edit = 1 + zzverif.Choice("editfile", n-1)
+		switch {
+		case c.edits == 1 && n > 1:
+			w.edit = zzverif.Choice("editfile", n)
+		case n > 1:
+			w.edit = 1
+		default:
+			w.edit = 0
+		}
+		if c.via {
+			w.viaOpen = zzverif.Choice("viaopen", 2) == 1
 		}
 	}
 	declPat := 0
-	if !full && w.kind != c09Payee {
+	tx2file := -1
+	if c.rich {
+		if c.tx2 == 1 && zzverif.Choice("tx2", 2) == 1 {
+			tx2file = 0
+			if n > 1 {
+				tx2file = zzverif.Choice("tx2file", n)
+			}
+		}
+	} else {
 		declPat = zzverif.Choice("decls", 3) // 0 none, 1 every file declares pool[0], 2 only the last file declares pool[0]
+		if declPat != 0 {
+			w.maxNm = 0
+		}
 	}
 	for i := 0; i < n; i++ {
 		f := &c09File{name: "f" + zzverif.Itoa(i) + ".journal"}
@@ -217,30 +254,31 @@ func c09Build(n int, full bool) *c09WS {
 	}
 	for i, f := range w.files {
 		b := &c09FB{w: w, f: f, fi: i}
+		si := zzverif.Itoa(i)
 		for _, j := range f.includes {
 			b.ln("include f" + zzverif.Itoa(j) + ".journal")
 		}
-		if w.kind != c09Payee {
-			id := "decl" + zzverif.Itoa(i)
-			if full {
-				if zzverif.Choice(id+".on", 2) == 1 {
-					b.decl(w.kind, w.pick(id))
-				}
-			} else if declPat == 1 || (declPat == 2 && i == n-1) {
-				b.decl(w.kind, 0)
+		if c.rich {
+			if zzverif.Choice("decl"+si+".on", 2) == 1 {
+				b.decl(w.pick("decl" + si))
 			}
+		} else if declPat == 1 || (declPat == 2 && i == n-1) {
+			b.decl(0)
 		}
-		day := zzverif.Itoa(i + 1)
-		b.tx("2024-01-0"+day, w.pick("n"+zzverif.Itoa(i)+".1"), "1", false)
-		if full && zzverif.Choice("tx2."+zzverif.Itoa(i), 2) == 1 {
+		day := i + 1
+		b.tx(1, day, w.pick("n"+si+".1"), "1", false)
+		second := i == tx2file
+		if c.rich && c.tx2 == 2 {
+			second = zzverif.Choice("tx2."+si, 2) == 1
+		}
+		if second {
 			b.ln("")
-			b.tx("2024-02-0"+day, w.pick("n"+zzverif.Itoa(i)+".2"), "2", false)
+			b.tx(2, day, w.pick("n"+si+".2"), "2", false)
 		}
 		f.disk = b.text
-		f.ndiskTx = len(f.txs)
 		if i == w.edit {
 			f.edited = true
-			b.tx("2024-03-0"+day, w.pick("added"), "3", true)
+			b.tx(3, day, w.pick("added"), "3", true)
 		}
 		f.cur = b.text
 		f.lineOff = append(f.lineOff, b.off) // the empty last line
@@ -279,10 +317,9 @@ func c09KnownReach(cls string) bool {
 	return false
 }
 
-// want: the locations the derivation demands for the symbol `name`, declarations iff asked. The ideal is: every
-// occurrence in every file of the tree, each in the editor's view of its file. Known classes replace the ideal by what
-// their cause produces, so that everything else stays checked.
-func (w *c09WS) want(name int, withDecl bool, fromDecl bool) []c09Loc {
+// want: the locations the derivation demands for the symbol (kind, name), declarations iff asked. The ideal is: every
+// occurrence in every file of the tree, each in the editor's view of its file, attributed to its file.
+func (w *c09WS) want(kind, name int, withDecl bool, fromDecl bool) []c09Loc {
 	if fromDecl && c09KnownReach(c09ClsFromDecl) {
 		return nil
 	}
@@ -308,13 +345,14 @@ func (w *c09WS) want(name int, withDecl bool, fromDecl bool) []c09Loc {
 				attributed = w.req
 			}
 		}
-		stale := !w.ws && f.edited && i != w.req && zzverif.Known(c09ClsStale)
+		// the server works on the saved text of this file instead of the editor's
+		diskView := f.edited && ((!w.ws && i != w.req && c09KnownReach(c09ClsStale)) ||
+			(w.ws && w.viaOpen && c09KnownReach(c09ClsOpenSync)))
 		for _, o := range f.occs {
-			if o.name != name || (o.decl && !withDecl) {
+			if o.kind != kind || o.name != name || (o.decl && !withDecl) {
 				continue
 			}
-			if o.added && stale {
-				zzverif.Reach("kf:" + c09ClsStale)
+			if o.added && diskView {
 				continue
 			}
 			l := c09Loc{file: attributed, line: o.line, s: o.s, eline: uint32(o.line), e: uint32(o.e)}
@@ -340,7 +378,7 @@ func (w *c09WS) dump(what string, got []protocol.Location, want []c09Loc) {
 	if zzverif.Engine() {
 		return
 	}
-	fmt.Printf("DUMP %s kind=%d ws=%v req=%d edit=%d\n", what, w.kind, w.ws, w.req, w.edit)
+	fmt.Printf("DUMP %s ws=%v req=%d edit=%d viaOpen=%v\n", what, w.ws, w.req, w.edit, w.viaOpen)
 	for i, f := range w.files {
 		fmt.Printf("--- f%d (edited=%v)\n%s", i, f.edited, f.cur)
 	}
@@ -356,7 +394,7 @@ func c09Same(g protocol.Location, gf int, l c09Loc) bool {
 	return gf == l.file && g.Range.Start.Line == uint32(l.line) && g.Range.Start.Character == uint32(l.s) && g.Range.End.Line == l.eline && g.Range.End.Character == l.e
 }
 
-// compare: got == want as sets, each location attributed to the file that contains it.
+// compare: got == want as sets without repetition, each location attributed to the file that contains it.
 func (w *c09WS) compare(what string, got []protocol.Location, want []c09Loc) {
 	ok := len(got) == len(want)
 	for _, g := range got {
@@ -409,12 +447,17 @@ func (w *c09WS) open() *Server {
 	}
 	if w.edit >= 0 {
 		f := w.files[w.edit]
-		_ = s.DidOpen(ctx, &protocol.DidOpenTextDocumentParams{TextDocument: protocol.TextDocumentItem{URI: w.uri(w.edit), Text: f.disk, Version: 1}})
-		sync(w.edit, f.disk)
-		_ = s.DidChange(ctx, &protocol.DidChangeTextDocumentParams{
-			TextDocument:   protocol.VersionedTextDocumentIdentifier{TextDocumentIdentifier: protocol.TextDocumentIdentifier{URI: w.uri(w.edit)}, Version: 2},
-			ContentChanges: []protocol.TextDocumentContentChangeEvent{{Text: f.cur}}})
-		sync(w.edit, f.cur)
+		if w.viaOpen {
+			_ = s.DidOpen(ctx, &protocol.DidOpenTextDocumentParams{TextDocument: protocol.TextDocumentItem{URI: w.uri(w.edit), Text: f.cur, Version: 1}})
+			sync(w.edit, f.cur)
+		} else {
+			_ = s.DidOpen(ctx, &protocol.DidOpenTextDocumentParams{TextDocument: protocol.TextDocumentItem{URI: w.uri(w.edit), Text: f.disk, Version: 1}})
+			sync(w.edit, f.disk)
+			_ = s.DidChange(ctx, &protocol.DidChangeTextDocumentParams{
+				TextDocument:   protocol.VersionedTextDocumentIdentifier{TextDocumentIdentifier: protocol.TextDocumentIdentifier{URI: w.uri(w.edit)}, Version: 2},
+				ContentChanges: []protocol.TextDocumentContentChangeEvent{{Text: f.cur}}})
+			sync(w.edit, f.cur)
+		}
 	}
 	if w.req != w.edit {
 		_ = s.DidOpen(ctx, &protocol.DidOpenTextDocumentParams{TextDocument: protocol.TextDocumentItem{URI: w.uri(w.req), Text: w.files[w.req].cur, Version: 1}})
@@ -426,7 +469,10 @@ func (w *c09WS) open() *Server {
 // applyEdits: the reference applier for one file (ASCII: characters are bytes): edits must be valid, non-overlapping
 // ranges; they are applied from the last to the first.
 func (f *c09File) applyEdits(edits []protocol.TextEdit, what string) (string, bool) {
-	type span struct{ s, e int; text string }
+	type span struct {
+		s, e int
+		text string
+	}
 	var spans []span
 	for _, e := range edits {
 		sl, el := int(e.Range.Start.Line), int(e.Range.End.Line)
@@ -456,11 +502,11 @@ func (f *c09File) applyEdits(edits []protocol.TextEdit, what string) (string, bo
 	return out, true
 }
 
-// expectText: the file's text with the name substituted at the listed occurrences.
+// expectText: the file's text with the name substituted at the listed occurrences (every other byte unchanged).
 func (w *c09WS) expectText(fi int, locs []c09Loc, newName string) string {
 	f := w.files[fi]
 	out := f.cur
-	// occurrences are on distinct lines: substitute from the last line to the first
+	// occurrences of one symbol are on distinct lines: substitute from the last line to the first
 	for line := len(f.lineOff) - 1; line >= 0; line-- {
 		for _, l := range locs {
 			if l.file == fi && l.line == line {
@@ -476,89 +522,102 @@ func (w *c09WS) expectText(fi int, locs []c09Loc, newName string) string {
 	return out
 }
 
-func verifC09(n int, full bool) {
-	w := c09Build(n, full)
+func verifC09(c c09Cfg) {
+	w := c09Build(c)
 	f := w.files[w.req]
-	// cursor: every occurrence in the requesting file, every character on it
-	zzverif.Assume(len(f.occs) > 0)
-	oc := f.occs[zzverif.Choice("occ", len(f.occs))]
-	ch := zzverif.Uint32("ch")
-	zzverif.Assume(ch >= uint32(oc.s) && ch < uint32(oc.e))
 	s := w.open()
 	ctx := context.Background()
-	tdp := protocol.TextDocumentPositionParams{TextDocument: protocol.TextDocumentIdentifier{URI: w.uri(w.req)}, Position: protocol.Position{Line: uint32(oc.line), Character: ch}}
 
-	for _, withDecl := range []bool{false, true} {
-		got, err := s.References(ctx, &protocol.ReferenceParams{TextDocumentPositionParams: tdp, Context: protocol.ReferenceContext{IncludeDeclaration: withDecl}})
-		zzverif.Assert(err == nil, "references: error")
-		what := "references"
-		if withDecl {
-			what = "references with declarations"
-		}
-		w.compare(what, got, w.want(oc.name, withDecl, oc.decl))
-	}
-	zzverif.Reach("C09.references")
-
-	newName := c09New[w.kind]
-	we, err := s.Rename(ctx, &protocol.RenameParams{TextDocumentPositionParams: tdp, NewName: newName})
-	zzverif.Assert(err == nil, "rename: error")
-	want := w.want(oc.name, true, oc.decl)
-	var edits []protocol.Location
-	nEdits := 0
-	if we != nil {
-		for u, es := range we.Changes {
-			nEdits += len(es)
-			zzverif.Assert(w.fileOf(u) >= 0, "rename: edits for a document that is not part of the workspace")
-			for _, e := range es {
-				zzverif.Assert(e.NewText == newName, "rename: edit text is not the new name")
-				edits = append(edits, protocol.Location{URI: u, Range: e.Range})
-			}
-		}
-	}
-	w.compare("rename", edits, want)
-	if w.ws && w.req != 0 && zzverif.Known(c09ClsRelabel) {
-		// edits are attributed to the wrong file: applying them is meaningless
-		zzverif.Reach("C09.rename.skipped-apply")
-		return
-	}
-	// apply with the reference applier, compare with the derivation, re-parse
+	// every file, as the editor shows it, parses to its derivation (files that a rename leaves byte-identical
+	// are not parsed again: parsing is a function of the text)
 	for fi, fl := range w.files {
-		var es []protocol.TextEdit
-		if we != nil {
-			es = we.Changes[w.uri(fi)]
+		w.reparse(fi, fl.cur, -1, nil, "")
+	}
+
+	// cursor: every occurrence in the requesting file, every character of it
+	for oi, oc := range f.occs {
+		ch := uint32(oc.s + zzverif.Int("ch"+zzverif.Itoa(oi), 0, oc.e-oc.s-1))
+		tdp := protocol.TextDocumentPositionParams{TextDocument: protocol.TextDocumentIdentifier{URI: w.uri(w.req)}, Position: protocol.Position{Line: uint32(oc.line), Character: ch}}
+		kn := c09KindName[oc.kind]
+
+		for _, withDecl := range []bool{false, true} {
+			got, err := s.References(ctx, &protocol.ReferenceParams{TextDocumentPositionParams: tdp, Context: protocol.ReferenceContext{IncludeDeclaration: withDecl}})
+			zzverif.Assert(err == nil, "references: error")
+			what := kn + " references"
+			if withDecl {
+				what = kn + " references with declarations"
+			}
+			w.compare(what, got, w.want(oc.kind, oc.name, withDecl, oc.decl))
 		}
-		if zzverif.Known(c09ClsDirNoEnd) {
-			// declarations without end (known class): read the edit as running to the end of its line
-			for k := range es {
-				if es[k].Range.End.Line == 0xFFFFFFFF && es[k].Range.Start.Line < uint32(len(fl.lineLen)) {
-					es[k].Range.End = protocol.Position{Line: es[k].Range.Start.Line, Character: uint32(fl.lineLen[es[k].Range.Start.Line])}
+		zzverif.Reach("C09.references")
+
+		newName := c09New[oc.kind]
+		we, err := s.Rename(ctx, &protocol.RenameParams{TextDocumentPositionParams: tdp, NewName: newName})
+		zzverif.Assert(err == nil, "rename: error")
+		want := w.want(oc.kind, oc.name, true, oc.decl)
+		var edits []protocol.Location
+		if we != nil {
+			zzverif.Assert(len(we.DocumentChanges) == 0, "rename: edits outside WorkspaceEdit.Changes")
+			for u, es := range we.Changes {
+				zzverif.Assert(w.fileOf(u) >= 0, "rename: edits for a document that is not part of the workspace")
+				for _, e := range es {
+					zzverif.Assert(e.NewText == newName, "rename: edit text is not the new name")
+					edits = append(edits, protocol.Location{URI: u, Range: e.Range})
 				}
 			}
 		}
-		gotText, ok := fl.applyEdits(es, "rename")
-		if !ok {
+		w.compare(kn+" rename", edits, want)
+		if w.ws && w.req != 0 && zzverif.Known(c09ClsRelabel) {
+			// the edits are attributed to the wrong file (known class): applying them is meaningless
+			zzverif.Reach("C09.rename.relabelled-not-applied")
 			continue
 		}
-		wantText := w.expectText(fi, want, newName)
-		if gotText != wantText && !zzverif.Engine() {
-			fmt.Printf("DUMP rename f%d\n--- got\n%s--- want\n%s", fi, gotText, wantText)
+		// apply with the reference applier, compare with the derivation, re-parse
+		for fi, fl := range w.files {
+			var es []protocol.TextEdit
+			if we != nil {
+				es = append(es, we.Changes[w.uri(fi)]...)
+			}
+			if zzverif.Known(c09ClsDirNoEnd) {
+				// declarations without end (known class): read the edit as running to the end of its line
+				for k := range es {
+					if es[k].Range.End.Line == 0xFFFFFFFF && es[k].Range.Start.Line < uint32(len(fl.lineLen)) {
+						es[k].Range.End = protocol.Position{Line: es[k].Range.Start.Line, Character: uint32(fl.lineLen[es[k].Range.Start.Line])}
+					}
+				}
+			}
+			gotText, ok := fl.applyEdits(es, "rename")
+			if !ok {
+				continue
+			}
+			wantText := w.expectText(fi, want, newName)
+			if gotText != wantText && !zzverif.Engine() {
+				fmt.Printf("DUMP rename f%d\n--- got\n%s--- want\n%s", fi, gotText, wantText)
+			}
+			zzverif.Assert(gotText == wantText, "rename: applying the edits does not yield the text with the name substituted")
+			if gotText != fl.cur {
+				w.reparse(fi, gotText, oc.kind, want, newName)
+			}
 		}
-		zzverif.Assert(gotText == wantText, "rename: applying the edits does not yield the text with the name substituted")
-		w.reparse(fi, gotText, want, newName)
+		zzverif.Reach("C09.rename")
 	}
-	zzverif.Reach("C09.rename")
+	zzverif.Reach("C09.end")
 }
 
-// reparse: the renamed file parses to the original structure with the name substituted.
-func (w *c09WS) reparse(fi int, text string, renamed []c09Loc, newName string) {
+// reparse: the text parses to the file's derivation with newName substituted at the occurrences of `kind` listed in renamed.
+func (w *c09WS) reparse(fi int, text string, kind int, renamed []c09Loc, newName string) {
 	f := w.files[fi]
-	j, errs := parser.Parse(text)
-	zzverif.Assert(len(errs) == 0, "rename: the renamed journal no longer parses")
-	zzverif.Assert(len(j.Transactions) == len(f.txs) && len(j.Directives) == f.ndirs && len(j.Includes) == len(f.includes), "rename: the renamed journal has a different structure")
-	if len(j.Transactions) != len(f.txs) || len(j.Directives) != f.ndirs {
-		return
+	what := "rename: "
+	if kind < 0 {
+		what = "model: "
 	}
+	j, errs := parser.Parse(text)
+	zzverif.Assert(len(errs) == 0, what+"the journal does not parse")
+	zzverif.Assert(len(j.Transactions) == len(f.txs) && len(j.Directives) == len(f.dirs) && len(j.Includes) == len(f.includes), what+"the journal has a different structure")
 	isRenamed := func(o c09Occ) bool {
+		if o.kind != kind {
+			return false
+		}
 		for _, l := range renamed {
 			if l.file == fi && l.line == o.line && l.s == o.s {
 				return true
@@ -566,46 +625,52 @@ func (w *c09WS) reparse(fi int, text string, renamed []c09Loc, newName string) {
 		}
 		return false
 	}
+	wantDirs := append([]c09Dir(nil), f.dirs...)
+	wantTxs := append([]c09Tx(nil), f.txs...)
 	for _, o := range f.occs {
-		if !o.decl {
+		if !isRenamed(o) {
 			continue
 		}
-		wantName := c09Pool[w.kind][o.name]
-		if isRenamed(o) {
-			wantName = newName
+		switch {
+		case o.decl:
+			wantDirs[o.idx].name = newName
+		case kind == c09Acct:
+			wantTxs[o.idx].acct = newName
+		case kind == c09Comm:
+			wantTxs[o.idx].comm = newName
+		case kind == c09Payee:
+			wantTxs[o.idx].payee = newName
 		}
-		gotName := ""
-		switch d := j.Directives[o.tx].(type) {
-		case ast.AccountDirective:
-			gotName = d.Account.Name
-		case ast.CommodityDirective:
-			gotName = d.Commodity.Symbol
-		}
-		zzverif.Assert(gotName == wantName, "rename: a declaration of the renamed journal differs from the original with the name substituted")
 	}
-	for ti, t := range f.txs {
-		want := t
-		for _, o := range f.occs {
-			if !o.decl && o.tx == ti && isRenamed(o) {
-				switch w.kind {
-				case c09Acct:
-					want.acct = newName
-				case c09Comm:
-					want.comm = newName
-				case c09Payee:
-					want.payee = newName
-				}
-			}
+	for k, inc := range j.Includes {
+		zzverif.Assert(inc.Path == "f"+zzverif.Itoa(f.includes[k])+".journal", what+"an include differs from the original")
+	}
+	for k, d := range wantDirs {
+		gotKind, gotName := -1, ""
+		switch d := j.Directives[k].(type) {
+		case ast.AccountDirective:
+			gotKind, gotName = c09Acct, d.Account.Name
+		case ast.CommodityDirective:
+			gotKind, gotName = c09Comm, d.Commodity.Symbol
 		}
+		zzverif.Assert(gotKind == d.kind && gotName == d.name, what+"a declaration differs from the original with the name substituted")
+	}
+	for ti, t := range wantTxs {
 		g := j.Transactions[ti]
-		ok := g.Description == want.payee && len(g.Postings) == 2 && g.Postings[0].Account.Name == want.acct &&
-			g.Postings[0].Amount != nil && g.Postings[0].Amount.Commodity.Symbol == want.comm && g.Postings[0].Amount.RawQuantity == want.amount &&
+		ok := g.Date.Year == 2024 && g.Date.Month == t.mon && g.Date.Day == t.day &&
+			g.Description == t.payee && getPayeeOrDescription(&g) == t.payee && len(g.Postings) == 2 && g.Postings[0].Account.Name == t.acct &&
+			g.Postings[0].Amount != nil && g.Postings[0].Amount.Commodity.Symbol == t.comm && g.Postings[0].Amount.RawQuantity == t.amount &&
 			g.Postings[1].Account.Name == "eq:open" && g.Postings[1].Amount == nil
-		zzverif.Assert(ok, "rename: a transaction of the renamed journal differs from the original with the name substituted")
+		zzverif.Assert(ok, what+"a transaction differs from the original with the name substituted")
 	}
 }
 
-func VerifC09Two()       { verifC09(2, true) }
-func VerifC09Three()     { verifC09(3, false) }
-func VerifC09ThreeLong() { verifC09(3, true) }
-func VerifC09FourLong()  { verifC09(4, false) }
+// quick tier
+func VerifC09One()   { verifC09(c09Cfg{n: 1, rich: true, tx2: 2, pool: 3, edits: 0, via: true}) }
+func VerifC09Two()   { verifC09(c09Cfg{n: 2, rich: true, tx2: 1, pool: 2, edits: 0, via: true}) }
+func VerifC09Three() { verifC09(c09Cfg{n: 3, rich: false, pool: 2, edits: 0}) }
+
+// thorough tier
+func VerifC09TwoLong()   { verifC09(c09Cfg{n: 2, rich: true, tx2: 2, pool: 3, edits: 1, via: true}) }
+func VerifC09ThreeLong() { verifC09(c09Cfg{n: 3, rich: true, tx2: 1, pool: 2, edits: 1}) }
+func VerifC09FourLong()  { verifC09(c09Cfg{n: 4, rich: false, pool: 2, edits: 1}) }
